@@ -157,7 +157,14 @@ func ParseNaluType(v uint8) uint8 {
 	return v & 0x1f
 }
 
-func ParseSliceType(nalu []byte) (uint8, error) {
+func ParseSliceType(nalu []byte) (ret uint8, err error) {
+	// see ParseSps: a truncated bit stream can make the bit reader index past its buffer
+	defer func() {
+		if r := recover(); r != nil {
+			err = nazaerrors.Wrap(base.ErrShortBuffer)
+		}
+	}()
+
 	if len(nalu) < 2 {
 		return 0, nazaerrors.Wrap(base.ErrShortBuffer)
 	}
